@@ -6,12 +6,23 @@ sensitivity, reset} on REAL networks of user modules (block-matrix, square, prod
 signals, slices); the states and sensitivities of ALL signals after the history and after the final
 reset/response/seed/sensitivity cycle are compared inside Coq with `run` of Model/Hist.v (exact, None vs zero array
 distinguished).
-Oracle / purity validation: the same final cycle on a freshly constructed identical network (implementation vs
-implementation), for the core cases (exact) and for networks with the caching library modules LinSolve (dense/sparse,
-SPD/indefinite/general, changing number of right-hand sides), AssembleStiffness/AssembleGeneral, FilterConv/DensityFilter,
-OverhangFilter, SystemOfEquations, StaticCondensation, EigenSolve (1e-9 relative); also "reset leaves nothing behind"
-and "sensitivity without seed changes nothing".  Documented memories (Scaling, damped AggScaling) serve as positive
-controls: the harness must SEE their history dependence.
+Tie (H), memory bookkeeping: the two library memories that can hold STALE factorisations -- SolverDenseCholesky with its LDL
+fallback (success flag, U, backup factorisation) and the per-mode adjoint solvers of the sparse EigenSolve (created and
+refactorised inside _sensitivity) -- are modelled in Hist.v; the implementation is run on deliberate and random sequences
+(definite/indefinite matrices; passes with arbitrary seeded-mode subsets) and observed through "which matrix does this
+answer / this held factorisation belong to"; Coq evaluates the model on tags (tag_answers, tag_adj_trace) and compares.
+Oracle / purity validation (tools/checks/histzoo.py): history run vs freshly constructed identical network, implementation
+vs implementation, for the core cases (exact) and for networks around every caching library module: LinSolve with every
+solver it can select (dense Cholesky with LDL fallback, LDL, LU, QR, diagonal, complex Hermitian / symmetric / general,
+sparse LU, CG with initial guess with and without LDAWrapper), AssembleStiffness/General/Poisson/Mass, FilterConv (padding
+variants), DensityFilter, OverhangFilter 2-D/3-D, SystemOfEquations, StaticCondensation, EigenSolve dense / sparse /
+generalized / shifted / FE.  Stress histories (every recipe, every run): three designs whose numerical character changes
+within the matrix class (definite <-> indefinite, differently conditioned, sign-flipped values on the same pattern),
+several reset(); seed; sensitivity() passes per response with different seed SUPPORTS (one piece / all but that piece /
+that piece again without a new response / column subsets / partial / single entry / explicit zeros / none), every pass
+compared with a fresh network.  Random histories: the same ingredients, final cycle with or without a new response.
+Also "reset leaves nothing behind" and "sensitivity without seed changes nothing".  Documented memories (Scaling, damped
+AggScaling) serve as positive controls: the harness must SEE their history dependence.
 """
 import os, json, glob, copy
 import numpy as np
@@ -40,6 +51,19 @@ Definition hist_case (N : nat) (dl keepl : list nat) (mods : list (hmod zmem)) (
   let x1 := run (keep_of keepl) mods hist (start dl keepl mods inputs) in
   let x2 := run (keep_of keepl) mods cyc x1 in
   hwf mods && obs_ok N x1 st1 se1 && obs_ok N x2 st2 se2.
+'''
+
+
+HEADER_BOOK = '''From Coq Require Import ZArith List Bool.
+From Pymoto Require Import Base.Num Base.Cmp Model.Net Model.Hist.
+Import ListNotations.
+(* one Cholesky-with-fallback solver fed A_1, A_2, ... (a matrix is [tag; 1 if positive definite else 0]); observed: the
+   tag of the matrix each answer (normal, transposed) solves *)
+Definition chol_case (As : list (list Z)) (obs : list (list Z)) : bool := Zll_eqb (tag_answers As) obs.
+(* sparse EigenSolve, n modes; ops: None = response of the next design, Some seeded = reset; seed these eigenvectors;
+   sensitivity.  observed after every pass: which A_k - lambda_i B_k the adjoint solver of each mode holds ([k; i]) *)
+Definition eig_case (n : nat) (ops : list (option (list bool))) (obs : list (list (option (list Z)))) : bool :=
+  list_eqb (list_eqb (option_eqb Zl_eqb)) (tag_adj_trace n ops) obs.
 '''
 
 
@@ -303,6 +327,53 @@ from histzoo import (make_float_modules, build_lib, run_lib, run_stress, stress_
                      lib_history, mat_family)
 
 
+# ============================================================================ bookkeeping correspondence (memories of Hist.v)
+def book_jobs(ctx, g):
+    """deliberate cases first (definite -> indefinite -> definite ...; one mode seeded at an earlier design, the other
+    modes first after the new response, that mode again without a new response ...), then random ones"""
+    jobs = []
+    for pds in ([1, 0, 1], [0, 1, 0], [1, 1], [0, 0], [1, 0, 0, 1, 1], [0, 1, 1, 0], [1], [0]):
+        for cplx in (False, True):
+            for via in ('solver', 'linsolve'):
+                jobs.append(dict(kind='chol', pds=pds, cplx=cplx, via=via))
+    for f in range(3):
+        only = [i == f for i in range(3)]
+        allbut = [i != f for i in range(3)]
+        for gen in (False, True):
+            jobs.append(dict(kind='eig', generalized=gen, ops=[None, only, None, allbut, only, [True] * 3]))
+            jobs.append(dict(kind='eig', generalized=gen, ops=[None, [True] * 3, None, [False] * 3, only, None, None, allbut]))
+            jobs.append(dict(kind='eig', generalized=gen, ops=[None, only, allbut, None, allbut, allbut, only]))
+    nr = 40 if ctx.quick() else 400
+    for _ in range(nr):
+        jobs.append(dict(kind='chol', pds=[int(g.integers(0, 2)) for _ in range(int(g.integers(2, 9)))],
+                         cplx=bool(g.integers(0, 2)), via=['solver', 'linsolve'][int(g.integers(0, 2))]))
+    for _ in range(nr):
+        ops = [None]
+        for _ in range(int(g.integers(2, 10))):
+            ops.append(None if g.random() < 0.3 else [bool(g.integers(0, 2)) for _ in range(3)])
+        jobs.append(dict(kind='eig', generalized=bool(g.integers(0, 2)), ops=ops))
+    for j in jobs:
+        j['seed'] = int(g.integers(0, 2 ** 31))
+    return jobs
+
+
+def run_book(pym, job):
+    """runs the implementation; returns (Coq check, observation) or None when the case is not usable"""
+    g = np.random.default_rng(job['seed'])
+    if job['kind'] == 'chol':
+        tags, valid = histzoo.chol_bookkeeping(pym, g, job['pds'], job['cplx'], job['via'])
+        if tags is None:
+            return None
+        As = [[k + 1, int(pd)] for k, pd in enumerate(job['pds'])]
+        obs = [[t] for pair in tags for t in pair]
+        return f'chol_case {zl(As)}%Z {zl(obs)}%Z', tags, valid
+    obs = histzoo.eig_bookkeeping(pym, g, job['ops'], job['generalized'])
+    ops = '[' + '; '.join('None' if o is None else 'Some [' + '; '.join('true' if b else 'false' for b in o) + ']'
+                          for o in job['ops']) + ']'
+    cells = '[' + '; '.join('[' + '; '.join('None' if c is None else f'Some {zl(c)}' for c in row) + ']' for row in obs) + ']'
+    return f'eig_case 3 {ops} ({cells})%Z', obs, 0
+
+
 # ============================================================================ main
 def run(ctx):
     import pymoto as pym
@@ -316,12 +387,22 @@ def run(ctx):
                 'reset} followed by the final cycle reset; [set]; response; [seeds]; [sensitivity]; two observations (after the '
                 'history, after the cycle) of ALL states and sensitivities are compared with the Coq model; distinct by full case. '
                 'A case is non-trivial when the history contains at least one response and one sensitivity or reset. '
-                'purity validation: the same protocol on networks with library modules, history run vs fresh run.')
+                'memory bookkeeping: sequences of 1-8 Hermitian matrices with positive diagonal, each definite or indefinite '
+                '(deliberate patterns first, e.g. definite-indefinite-definite; real/complex; through the solver object and through '
+                'LinSolve), and histories of a sparse EigenSolve (standard/generalized, 3 modes) of responses and passes with '
+                'arbitrary seeded-mode subsets (deliberate first: one mode at an earlier design, the others first after the new '
+                'response, that mode again); observed: the tag of the matrix every answer solves / every adjoint solver holds; '
+                'non-trivial when both kinds of matrices occur / when there are >= 2 responses and a proper subset pass. '
+                'purity validation: stress histories (deliberate plan: 3 designs with a regime sequence, 12 passes with different '
+                'seed supports, every pass vs fresh network) and random histories on networks with library modules.')
     ctx.assumptions += ['the matrix CLASS (dense/sparse, symmetric/Hermitian or not, real/complex, size) and the dtype of a signal '
                         'are constant within a history (LinearSolver.update: "new matrix of the same structure"); '
                         'LinSolve/EigenSolve cache class flags and the solver kind from the first call',
                         'inner solvers are exact (an exact solve of a regular matrix does not depend on its initial guess): '
-                        'hypothesis solve_ignores_guess, validated by the history-vs-fresh comparison at 1e-9',
+                        'hypothesis solve_ignores_guess, validated by the history-vs-fresh comparison at 1e-9 (CG with tol=1e-12: 1e-8; '
+                        'the FE eigenproblem whose adjoint systems are singular by construction, K02: 1e-7)',
+                        'definiteness, conditioning and the values on a fixed sparsity pattern are NOT part of the matrix class: they '
+                        'change within the stress histories',
                         'modules are shape-correct and their adjoint is linear in the seed (zero seeds give zero results): '
                         'hypothesis h_shaped (C01/C04), proved for the test modules',
                         'seeds are placed on signals a module holds directly (not only through slices); sensitivity() is called '
@@ -329,7 +410,11 @@ def run(ctx):
                         'exempt, as documented: Scaling (objective mode), damped AggScaling, iteration counters of writers']
     ctx.trusted += ['Print Assumptions: all C03 theorems are closed under the global context (no axioms)',
                     'library numerics (LAPACK / SuperLU / scipy) enter the caching-module theorems as Section variables with the '
-                    'contract solve_ignores_guess; purity of the library modules is validated, not proved (purity_validation)']
+                    'contract solve_ignores_guess; purity of the library modules is validated, not proved (purity_validation)',
+                    'memory bookkeeping: the identification of the matrix an answer belongs to (normalised residual <= 1e-8 against '
+                    'all matrices of the sequence, unique match) and the attribute EigenSolve.solvers',
+                    'fresh networks inside a stress history are deep copies of a never-evaluated network built by the same '
+                    'constructor calls (the last comparison of every stress history and every random history construct a new one)']
     vlib.audit(ctx)
     if not vlib.ensure_static(ctx):
         return
@@ -394,7 +479,12 @@ def run(ctx):
         if o2[0] != of[0] or not same_up_to_none(o2[1], of[1]):
             ctx.violation('impl-violates', 'Network history', 'final cycle equals a fresh network', 'core network',
                           dict(name=name, case=case), expected=dict(states=of[0], sens=of[1]), got=dict(states=o2[0], sens=o2[1]))
+    import time as _time
+    phases = {'core cases (python)': round(_time.time() - ctx.t0, 1)}
+    _t = _time.time()
     failing, err = vlib.run_cases(ctx, 'hist', HEADER, checks, chunk=40 if ctx.quick() else 120)
+    phases['core cases (coq)'] = round(_time.time() - _t, 1)
+    _t = _time.time()
     ctx.obligation('correspondence:case files evaluated', 'correspondence', not err, err)
     if err:
         ctx.violation('correspondence', 'Network history', 'case files compile', 'harness', dict(error=err[-3000:]), theorem='cases_hist')
@@ -404,6 +494,66 @@ def run(ctx):
                       dict(name=labels[idx], case=case), got=dict(after_history=o1, after_cycle=o2),
                       note='Coq model (Hist.v) and implementation differ')
 
+    # ---- bookkeeping correspondence: the memories modelled in Hist.v (Cholesky/LDL fallback, per-mode adjoint solvers)
+    gb = np.random.default_rng(ctx.seed + 17)
+    if replaying:
+        jobs = [rp['book']] if isinstance(rp, dict) and 'book' in rp else []
+    else:
+        jobs = book_jobs(ctx, gb)
+    bchecks, bjobs, nvalid = [], [], 0
+    for job in jobs:
+        try:
+            res = run_book(pym, job)
+        except Exception as e:
+            if 'singular' in str(e):
+                ctx.count('book:skipped_K02')
+                continue
+            ctx.violation('impl-violates', 'bookkeeping ' + job['kind'], 'an admissible history runs without exception',
+                          'library module memory', dict(book=job), expected='observations', got=repr(e)[:500])
+            continue
+        if res is None:
+            ctx.count('book:discarded')
+            continue
+        chk, obs, valid = res
+        nvalid += valid
+        bchecks.append(chk)
+        bjobs.append((job, obs))
+        ctx.count('book:' + job['kind'] + (':' + job['via'] if job['kind'] == 'chol' else ':generalized' if job['generalized'] else ':standard'))
+        nontrivial = (len(set(job['pds'])) > 1) if job['kind'] == 'chol' else (sum(o is None for o in job['ops']) > 1 and any(o and not all(o) for o in job['ops'] if o is not None))
+        ctx.case(json.dumps(job, sort_keys=True), nontrivial, sample=dict(case='book:' + job['kind'], coq=chk[:300]))
+    ctx.oracle_validation['cholesky factorisation succeeds iff the matrix is positive definite (tag instance of `chol`)'] = nvalid
+    if bchecks:
+        failing, err = vlib.run_cases(ctx, 'book', HEADER_BOOK, bchecks, chunk=80)
+        ctx.obligation('correspondence:memory bookkeeping case files evaluated', 'correspondence', not err, err)
+        if err:
+            ctx.violation('correspondence', 'memory bookkeeping', 'case files compile', 'harness', dict(error=err[-3000:]),
+                          theorem='cases_book')
+        for idx in failing[:20]:
+            job, obs = bjobs[idx]
+            site = 'SolverDenseCholesky.update/solve' if job['kind'] == 'chol' else 'EigenSolve._sparse_eigvec_sens'
+            # does the observation itself show a factorisation of an EARLIER (or of no) matrix IN USE?  then the
+            # implementation violates the property on this input, whatever the model says
+            if job['kind'] == 'chol':
+                stale = any(t != k + 1 for k, pair in enumerate(obs) for t in pair)
+            else:
+                stale, k, row = False, 0, 0
+                for o in job['ops']:
+                    if o is None:
+                        k += 1
+                    else:
+                        stale = stale or any(sd and obs[row][i] != [k, i] for i, sd in enumerate(o))
+                        row += 1
+            ctx.violation('impl-violates' if stale else 'correspondence', site,
+                          'the factorisation in use is the one of the current matrix' if stale else 'model == implementation',
+                          'library module memory', dict(book=job),
+                          expected='Model/Hist.v: ' + ('tag_answers' if job['kind'] == 'chol' else 'tag_adj_trace'), got=obs,
+                          note='Coq model of the memory (Hist.v) and implementation differ' +
+                               ('; an answer / a visited mode uses the factorisation of an earlier matrix' if stale else ''),
+                          theorem='C03_cholesky_solver_answers_for_latest_matrix' if job['kind'] == 'chol'
+                          else 'C03_mem_invariant_eigensolve_adjoint_solvers')
+
+    phases['memory bookkeeping (python + coq)'] = round(_time.time() - _t, 1)
+    _t = _time.time()
     # ---- purity validation on library networks (history run vs fresh run of the implementation)
     pv = {}
     g = np.random.default_rng(ctx.seed)
@@ -464,6 +614,8 @@ def run(ctx):
             ctx.violation('impl-violates', name.split()[1] + '._response', 'history run equals fresh run', 'regression witness',
                           dict(witness=name), expected='same as fresh module', got=msg)
     ctx.extra['purity_validation'] = pv
+    phases['library histories (stress + random)'] = round(_time.time() - _t, 1)
+    ctx.extra['phase_seconds'] = phases
     for c in CONTROLS:
         if c in pv and pv[c]['differing'] == 0 and pv[c]['histories'] >= 10:
             ctx.obligation('harness:positive control ' + c + ' shows history dependence', 'harness', False,
